@@ -65,3 +65,55 @@ func mkWide(v int) *Wide {
 func init() {
 	statics = append(statics, typeInfo{"Wide", func(v int) interface{} { return mkWide(v) }, []string{"", "v2"}})
 }
+
+// Node is a recursive type: deep nesting through pointers.
+type Node struct {
+	Name string `valid:"required,le=4" v2:"ge=2"`
+	Next *Node  `valid:"exist"`
+	Kids []Node `valid:"exist"`
+}
+
+func mkNode(v int) *Node {
+	depth := []int{1, 3, 12, 40}[v%4]
+	var head *Node
+	for i := depth; i > 0; i-- {
+		n := &Node{Name: strN((v + i) % 7), Next: head}
+		if i%5 == 0 {
+			n.Kids = []Node{{Name: strN(i % 6)}, {Name: ""}}
+		}
+		head = n
+	}
+	return head
+}
+
+// Big has long values and long collections: sizes beyond the thresholds small workloads stay under.
+type Big struct {
+	Text  string   `valid:"required,le=200|text too long" v2:"ge=500"`
+	Words []string `valid:"unique,le=100"`
+	Nums  []int    `valid:"required,lt=300"`
+	Items []*Item  `valid:"exist"`
+	Note  string   `valid:"exist,re='^[a-z ,]{0,300}$'"`
+}
+
+func mkBig(v int) *Big {
+	b := &Big{Text: strN([]int{0, 10, 150, 260, 700}[v%5])}
+	n := []int{0, 3, 70, 150}[v%4]
+	for i := 0; i < n; i++ {
+		b.Words = append(b.Words, "w"+strN(i%9)+string(rune('a'+i%26)))
+		b.Nums = append(b.Nums, i)
+	}
+	if v%3 == 1 {
+		b.Words = append(b.Words, b.Words...)
+	}
+	for i := 0; i < []int{0, 2, 64}[v%3]; i++ {
+		b.Items = append(b.Items, mkItem(i+v))
+	}
+	b.Note = []string{"", "ok note", strN(120) + ", " + strN(150), "BAD" + strN(310)}[v%4]
+	return b
+}
+
+func init() {
+	statics = append(statics,
+		typeInfo{"Node", func(v int) interface{} { return mkNode(v) }, []string{"", "v2"}},
+		typeInfo{"Big", func(v int) interface{} { return mkBig(v) }, []string{"", "v2"}})
+}
